@@ -237,7 +237,14 @@ impl Probe {
                 round += 1;
                 self.write_roots(&live);
                 let t = Instant::now();
-                let (ok, by_mod, stray) = self.cargo(stage);
+                let (mut ok, mut by_mod, mut stray) = self.cargo(stage);
+                if by_mod.is_empty() && (!stray.is_empty() || !ok) {
+                    // not a verdict about any declaration (killed compiler, lock trouble, ...): once more
+                    eprintln!("hx-derive: cargo {stage} failed without attributable diagnostics, retrying:\n{}", stray.join("\n"));
+                    res.timings.push(json!({"stage": stage, "round": round, "retry": true}));
+                    std::thread::sleep(std::time::Duration::from_secs(2));
+                    (ok, by_mod, stray) = self.cargo(stage);
+                }
                 res.timings.push(json!({"stage": stage, "round": round, "live": live.len(), "rejected": by_mod.len(), "s": (t.elapsed().as_secs_f64() * 100.0).round() / 100.0}));
                 if !stray.is_empty() && by_mod.is_empty() {
                     return Err(format!("cargo {stage}: error not attributable to a declaration:\n{}", stray.join("\n")));
